@@ -42,7 +42,7 @@ def check(drv, tier, rng, fails):
             if tot != ci.get_num_cells(r):
                 fails.append(Failure(f'sum over level {a} of get_num_children({a},{r}) = {tot} != get_num_cells({r}) = {ci.get_num_cells(r)}', {'kind': 'sum', 'a': a, 'r': r}))
             n += 1
-    for _ in range(300 if tier == 'quick' else 5000):
+    for _ in range(300 if tier == 'quick' else 50000):
         c = random_valid_id(rng, -1, MAXV); r = ref_res(c)
         b = min(MAXV, r + rng.randint(0, 3))
         if r <= 0 and b > 3:
